@@ -84,6 +84,56 @@ def dep_spec(v):
     return "{ " + ", ".join(f"{k} = {json.dumps(x)}" for k, x in v.items()) + " }"
 
 
+HELPER_ATTRS = {"value", "serde", "arg", "command", "clap"}
+
+
+def strip_helper_attrs(text):
+    """remove `#[value(..)]`, `#[serde(..)]`, `#[arg(..)]`, `#[command(..)]`, `#[clap(..)]` attribute groups (balanced, possibly
+    multi-line) from an item's text; returns (new text, list of removed attribute heads)"""
+    toks = list(extract.tokenize(text))
+    cuts, removed = [], []
+    i = 0
+    while i < len(toks):
+        k, t, p = toks[i]
+        if k == "punct" and t == "#":
+            j = i + 1
+            while j < len(toks) and toks[j][0] in ("ws", "comment"):
+                j += 1
+            if j < len(toks) and toks[j][1] == "[":
+                n = j + 1
+                while n < len(toks) and toks[n][0] in ("ws", "comment"):
+                    n += 1
+                if n < len(toks) and toks[n][0] == "ident" and toks[n][1] in HELPER_ATTRS:
+                    depth, m = 0, j
+                    while m < len(toks):
+                        if toks[m][0] == "punct" and toks[m][1] == "[":
+                            depth += 1
+                        elif toks[m][0] == "punct" and toks[m][1] == "]":
+                            depth -= 1
+                            if depth == 0:
+                                break
+                        m += 1
+                    end = toks[m][2] + 1
+                    # swallow the rest of the line if it is blank
+                    e2 = end
+                    while e2 < len(text) and text[e2] in " \t":
+                        e2 += 1
+                    if e2 < len(text) and text[e2] == "\n":
+                        end = e2 + 1
+                        # and the indentation before the attribute
+                        st = p
+                        while st > 0 and text[st - 1] in " \t":
+                            st -= 1
+                        p = st
+                    cuts.append((p, end))
+                    removed.append("#[" + toks[n][1] + "(..)]")
+                    i = m
+        i += 1
+    for a, b in sorted(cuts, reverse=True):
+        text = text[:a] + text[b:]
+    return text, removed
+
+
 def expand_extracts(text, manifest):
     out = []
     for line in text.split("\n"):
@@ -105,10 +155,9 @@ def expand_extracts(text, manifest):
             # (serde / clap derive output is not code under contract); everything else is verbatim
             attrs, rest = extract.split_attrs(it)
             kept, drop = extract.filter_attrs(attrs)
-            inner = re.findall(r"^\s*#\[(?:value|serde|arg|command|clap)\b[^\n]*\]\s*\n", rest, re.M)
-            rest = re.sub(r"^\s*#\[(?:value|serde|arg|command|clap)\b[^\n]*\]\s*\n", "", rest, flags=re.M)
+            rest, inner = strip_helper_attrs(rest)
             text = "\n".join(kept) + ("\n" if kept else "") + rest
-            dropped += "; attributes removed: " + ", ".join(drop + [x.strip() for x in inner])
+            dropped += "; attributes removed: " + ", ".join(drop) + (f"; {len(inner)} helper attributes of serde/clap removed" if inner else "")
         manifest.append({"file": rel, "item": " :: ".join(sels), "first_line": first, "last_line": last,
                          "sha256": sha(it.text), "dropped": dropped})
         out.append(f"{m.group(1)}// ---- extracted {'(attributes filtered) ' if filtered else 'verbatim '}from {rel}:{first}-{last} ({' :: '.join(sels)})")
